@@ -1,7 +1,7 @@
 (* C15 — correspondence / property evaluation on what was observed on the
    implementation (harness/cmd/c15).  Executable only. *)
 From Coq Require Import List ZArith Bool.
-From GZ Require Export Lib.CheckLib C15.Model C15.Cluster.
+From GZ Require Export Lib.CheckLib C15.Model C15.Cluster C15.Conc.
 From GZgen Require Import C15Consts.
 Import ListNotations.
 Open Scope Z_scope.
@@ -349,12 +349,64 @@ Definition prop_ok_u (u : ucase) : bool :=
   if negb (forallb (fun ic => weights_in_domain (uR u) (snd ic)) (uinsts u)) then true else
   forall2b (ustep_ok u cf) (uops u) (utouch u) && usnaps_ok u cf false (uops u) (usnaps u).
 
+(* ==== concurrent executions (harness/cmd/c15/conc.go) ============================================
+   Several goroutines call Add / AddWithReplicas / AddWithWeight / Remove on ONE ring; the executor
+   forces a schedule at the granularity of Conc.v (an add-type call can be parked between its Remove
+   and its insertion) and reports, per schedule step, the actions that really ran (none, one, or both
+   actions of a call that could not be parked) and what Get answers for every probe afterwards. *)
+Record kcase := mkConc
+  { kR : Z;
+    kvh : list (Z * list Z);
+    ksteps : list (list act);         (* per schedule step: the actions executed, in order *)
+    kprobes : list (Z * Z);
+    kgets : list (list Z) }.          (* before any step, and after each step *)
+
+Fixpoint conc_rows (t : list (Z * list Z)) (R : Z) (s : state) (steps : list (list act)) (ps : list (Z * Z))
+  : list (list Z) :=
+  match steps with
+  | [] => []
+  | acts :: steps' =>
+    let s' := fold_left (astep (vh_of t) R) acts s in
+    gets_of t s' ps :: conc_rows t R s' steps' ps
+  end.
+
+Definition model_obs_k (c : kcase) : list (list Z) :=
+  gets_of (kvh c) init (kprobes c) :: conc_rows (kvh c) (kR c) init (ksteps c) (kprobes c).
+
+Definition agrees_k (c : kcase) : bool := list_eqb zs_eqb (model_obs_k c) (kgets c).
+
+(* the layered node map: Remove takes the node's layers away, every insertion adds one *)
+Definition l_act (R : Z) (m : amap) (a : act) : amap :=
+  match a with
+  | ARemove n => a_del n m
+  | AInsert x r => m ++ [(nrepr x, (clamp R r, nval x))]
+  end.
+
+(* after every step: every answer is the value of a node that has a layer with >= 1 replica (so a
+   node whose last action is a Remove is never returned), none iff there is no such node, and the
+   value owns the cyclic successor slot of the key among the live virtual nodes of all layers *)
+Fixpoint conc_ok (t : list (Z * list Z)) (R : Z) (ps : list (Z * Z)) (m : amap)
+         (steps : list (list act)) (obs : list (list Z)) : bool :=
+  match steps, obs with
+  | [], [] => true
+  | acts :: steps', gs :: obs' =>
+    let m' := fold_left (l_act R) acts m in
+    step_ok t false ps m' gs && conc_ok t R ps m' steps' obs'
+  | _, _ => false
+  end.
+
+Definition prop_ok_k (c : kcase) : bool :=
+  match kgets c with
+  | g0 :: obs => step_ok (kvh c) false (kprobes c) [] g0 && conc_ok (kvh c) (kR c) (kprobes c) [] (ksteps c) obs
+  | [] => false
+  end.
+
 (* ==== the case type evaluated by the runner ==================================================== *)
-Inductive case := RingCase (c : rcase) | UserCase (u : ucase).
+Inductive case := RingCase (c : rcase) | UserCase (u : ucase) | ConcCase (k : kcase).
 
 Definition agrees (c : case) : bool :=
-  match c with RingCase c => agrees_r c | UserCase u => agrees_u u end.
+  match c with RingCase c => agrees_r c | UserCase u => agrees_u u | ConcCase k => agrees_k k end.
 Definition prop_ok (c : case) : bool :=
-  match c with RingCase c => prop_ok_r c | UserCase u => prop_ok_u u end.
+  match c with RingCase c => prop_ok_r c | UserCase u => prop_ok_u u | ConcCase k => prop_ok_k k end.
 Definition model_obs (c : case) : list (list Z) :=
-  match c with RingCase c => model_obs_r c | UserCase u => model_obs_u u end.
+  match c with RingCase c => model_obs_r c | UserCase u => model_obs_u u | ConcCase k => model_obs_k k end.
